@@ -216,14 +216,22 @@ fn candidates(mg: &MoveGenerator, rng: &mut rand::rngs::StdRng, want: usize, max
     while out.len() < want && guard < 100000 {
         guard += 1;
         if rng.gen_bool(0.5) {
+            // at most two positions per playout, taken when the material first drops to a random target
             let mut b = Board::default();
-            for ply in 0..400 {
+            let mut target = rng.gen_range(3..=max_men);
+            let mut taken = 0;
+            for _ply in 0..400 {
                 let moves = mg.generate_moves(&b);
                 if moves.is_empty() {
                     break;
                 }
-                if men(&b) <= max_men && ply % 2 == rng.gen_range(0..2) && rng.gen_bool(0.3) {
+                if men(&b) <= target && taken < 2 && rng.gen_bool(0.5) {
                     out.push(b);
+                    taken += 1;
+                    if target <= 3 {
+                        break;
+                    }
+                    target = rng.gen_range(3..=(target - 1).max(3));
                 }
                 let caps: Vec<&Move> = moves.iter().filter(|m| m.move_type != MoveType::Quiet && m.move_type != MoveType::Castle).collect();
                 let m = if !caps.is_empty() && rng.gen_bool(0.7) { *caps[rng.gen_range(0..caps.len())] } else { moves[rng.gen_range(0..moves.len())] };
@@ -249,7 +257,17 @@ fn candidates(mg: &MoveGenerator, rng: &mut rand::rngs::StdRng, want: usize, max
                 let s = take(rng);
                 let kind = [1, 1, 1, 2, 3, 4, 5][rng.gen_range(0..7)];
                 let kind = if kind == 1 && (s / 8 == 0 || s / 8 == 7) { 2 } else { kind };
-                cs[s] = kind + if rng.gen_bool(0.5) { 6 } else { 0 };
+                let black = rng.gen_bool(0.5);
+                if kind == 1 && rng.gen_bool(0.5) {
+                    // a pawn one or two steps from promotion (if that square is free)
+                    let r = if black { [1usize, 2][rng.gen_range(0..2)] } else { [6usize, 5][rng.gen_range(0..2)] };
+                    let t = r * 8 + s % 8;
+                    if cs[t] == 0 {
+                        cs[t] = if black { 7 } else { 1 };
+                        continue;
+                    }
+                }
+                cs[s] = kind + if black { 6 } else { 0 };
             }
             let b = proj::build_from(&cs, rng.gen_bool(0.5), "", None);
             // the engine must not be handed a position in which the side NOT to move is in check
@@ -279,6 +297,7 @@ pub fn dump(args: &[String]) -> i32 {
     let mode = arg(args, "--mode", "c05");
     let with_pos: usize = arg(args, "--validate-graphs", "0").parse().unwrap();
     let kstep: u64 = arg(args, "--kstep", "1").parse().unwrap();
+    let fixed_depth: i32 = arg(args, "--fixed-depth", "0").parse().unwrap();
     let fens = arg(args, "--fens", "");
     let out_path = arg(args, "--out", "");
     let mg = MoveGenerator::new();
@@ -295,6 +314,55 @@ pub fn dump(args: &[String]) -> i32 {
         }
     }
     let mut skipped_infinite = 0u64;
+    let pool_size: usize = arg(args, "--pool", "3000").parse().unwrap();
+    let max_nodes: usize = arg(args, "--max-nodes", "3000").parse().unwrap();
+    if forced.is_empty() {
+        // Build a pool of candidates with a finite quiescence tree and pick a DIVERSE subset: pawn
+        // endings are finite far more often than positions with pieces, so taking the first finite
+        // candidates would look at little else.  Buckets: men count x pawn one step from promotion x
+        // pieces present x many tactical edges.
+        let mut buckets: BTreeMap<(u32, bool, bool, bool), Vec<Board>> = BTreeMap::new();
+        let mut n = 0usize;
+        while n < pool_size {
+            for b in candidates(&mg, &mut rng, 64, max_men) {
+                n += 1;
+                tried += 1;
+                match catch_unwind(AssertUnwindSafe(|| Graph::build(&mg, &b, depth, cap))) {
+                    Ok(Some(g)) => {
+                        if g.nodes.len() > max_nodes {
+                            continue;
+                        }
+                        let cs = proj::codes(&b);
+                        let promo = (48..56).any(|s| cs[s] == 1) || (8..16).any(|s| cs[s] == 7);
+                        let piece = cs.iter().any(|&c| c != 0 && c != 1 && c != 7 && c != 6 && c != 12);
+                        let qedges: usize = g.nodes.iter().map(|x| x.qi.len()).sum();
+                        let key = (men(&b).min(8) / 2, promo, piece, qedges >= 30);
+                        buckets.entry(key).or_default().push(b);
+                    }
+                    Ok(None) => skipped_infinite += 1,
+                    Err(_) => {}
+                }
+            }
+        }
+        // round-robin over the buckets, rarest first
+        let mut keys: Vec<(u32, bool, bool, bool)> = buckets.keys().cloned().collect();
+        keys.sort_by_key(|k| buckets[k].len());
+        let mut picked: Vec<Board> = vec![];
+        let mut round = 0usize;
+        while picked.len() < want && keys.iter().any(|k| buckets[k].len() > round) {
+            for k in &keys {
+                if picked.len() < want && buckets[k].len() > round {
+                    picked.push(buckets[k][round]);
+                }
+            }
+            round += 1;
+        }
+        forced = picked;
+        if forced.is_empty() {
+            w.flush().ok();
+            return 0;
+        }
+    }
     while done < want {
         let cands = if !forced.is_empty() { std::mem::take(&mut forced) } else { candidates(&mg, &mut rng, 64, max_men) };
         if cands.is_empty() {
@@ -316,6 +384,7 @@ pub fn dump(args: &[String]) -> i32 {
                 }
                 Err(_) => continue,
             };
+            let mut fixed_graph: Option<Graph> = None;
             let mut ev = json!({"ev":"graph","root":proj::project_struct(&b),"rootfen":g.nodes[0].fen,"d":depth,
                                 "g":g.to_json(done < with_pos),"validated": done < with_pos,
                                 "tried":tried,"skipped_infinite":skipped_infinite});
@@ -337,6 +406,46 @@ pub fn dump(args: &[String]) -> i32 {
                     Err(_) => fresh.push(json!({"d":d,"panic":true})),
                 }
             }
+            // ---- single fixed-depth searches (no shallower iterations) at depth D+1.. when the graph allows
+            for d in (depth + 1)..=fixed_depth {
+                if let Ok(Some(g2)) = catch_unwind(AssertUnwindSafe(|| Graph::build(&mg, &b, d, cap))) {
+                    if g2.nodes.len() > 6000 {
+                        break;
+                    }
+                    let r = catch_unwind(AssertUnwindSafe(|| {
+                        let mut s = Searcher::new();
+                        crate::search::verif::reset_counters();
+                        let (score, mv) = s.verif_search_fixed(&b, d as u8);
+                        let (hits, deeper) = crate::search::verif::counters();
+                        json!({"d":d,"fixed":true,"score":clamp(score),"move":mv.map(|m| proj::move_text(&m)).unwrap_or_else(|| "-".into()),
+                               "nodes":s.verif_nodes(),"polls":0,"hits":hits,"deeper":deeper,"rep":s.verif_repetition_len(),
+                               "entries":entries(&s, &g2).iter().map(|e| json!([e.0,e.1,e.2,e.3,e.4])).collect::<Vec<_>>()})
+                    }));
+                    if let Ok(v) = r {
+                        // the deeper graph replaces the shallower one (it contains it); earlier runs keep their meaning
+                        // because node ids are assigned in the same visiting order only for the common prefix - so the
+                        // entries of the earlier runs are re-mapped by position text
+                        let remap = |old: &Graph, newg: &Graph, e: &Value| -> Value {
+                            let id = e[0].as_u64().unwrap() as usize;
+                            let nid = if id == 0 { 0 } else { newg.index.get(&old.nodes[id - 1].fen).map(|x| x + 1).unwrap_or(0) };
+                            json!([nid, e[1], e[2], e[3], e[4]])
+                        };
+                        for f in fresh.iter_mut() {
+                            if let Some(es) = f["entries"].as_array() {
+                                let ne: Vec<Value> = es.iter().map(|e| remap(fixed_graph.as_ref().unwrap_or(&g), &g2, e)).collect();
+                                f["entries"] = json!(ne);
+                            }
+                        }
+                        fresh.push(v);
+                        ev["g"] = g2.to_json(done < with_pos);
+                        ev["d"] = json!(d);
+                        fixed_graph = Some(g2);
+                    }
+                } else {
+                    break;
+                }
+            }
+            let g = fixed_graph.take().unwrap_or(g);
             ev["fresh"] = json!(fresh);
             if mode == "c06" {
                 // ---- every interruption point: abort at node k, then search again to completion
@@ -596,6 +705,100 @@ pub fn mate(args: &[String]) -> i32 {
             let caps: Vec<&Move> = moves.iter().filter(|m| m.move_type == MoveType::Capture).collect();
             let m = if !caps.is_empty() && rng.gen_bool(0.35) { *caps[rng.gen_range(0..caps.len())] } else { moves[rng.gen_range(0..moves.len())] };
             b.make_move(&m);
+        }
+    }
+    w.flush().ok();
+    0
+}
+
+
+// ---------------------------------------------------------------------------------------------
+// C05 on ARBITRARY positions: the alpha-beta contract at the root.  For a position, a depth and a root
+// window (a, b) a fresh engine's negamax answers r; with v the answer for the full window:
+//   a < v < b  =>  r = v ;   v <= a  =>  r <= a ;   v >= b  =>  r >= b
+// ("cut-offs are optimisations only": no window may change the value).  Needs no game graph, so
+// positions with an unbounded quiescence tree are in scope.
+// ---------------------------------------------------------------------------------------------
+pub fn window(args: &[String]) -> i32 {
+    let seed: u64 = arg(args, "--seed", "1").parse().unwrap();
+    let want: usize = arg(args, "--positions", "20").parse().unwrap();
+    let maxdepth: u8 = arg(args, "--maxdepth", "3").parse().unwrap();
+    let fens = arg(args, "--fens", "");
+    let out_path = arg(args, "--out", "");
+    let mg = MoveGenerator::new();
+    let mut rng = rand::rngs::StdRng::seed_from_u64(seed);
+    let mut w = std::io::BufWriter::new(std::fs::File::create(&out_path).unwrap());
+    let mut boards: Vec<Board> = vec![];
+    if !fens.is_empty() {
+        for l in std::fs::read_to_string(&fens).unwrap().lines() {
+            if let Ok(b) = proj::build(l.trim()) {
+                boards.push(b);
+            }
+        }
+    }
+    // positions of every phase from random games (captures preferred now and then)
+    while boards.len() < want {
+        let mut b = Board::default();
+        let stop_at = rng.gen_range(4..160);
+        for ply in 0..stop_at {
+            let moves = mg.generate_moves(&b);
+            if moves.is_empty() {
+                break;
+            }
+            if ply + 1 == stop_at {
+                boards.push(b);
+            }
+            let caps: Vec<&Move> = moves.iter().filter(|m| m.move_type != MoveType::Quiet).collect();
+            let m = if !caps.is_empty() && rng.gen_bool(0.4) { *caps[rng.gen_range(0..caps.len())] } else { moves[rng.gen_range(0..moves.len())] };
+            b.make_move(&m);
+        }
+    }
+    let inf = 32767i32;
+    let mut s = Searcher::new();
+    for b in boards.iter().take(want.max(boards.len().min(want))) {
+        if mg.generate_moves(b).is_empty() {
+            continue;
+        }
+        for d in 1..=maxdepth {
+            let full = catch_unwind(AssertUnwindSafe(|| {
+                s.verif_reset();
+                s.verif_search_window(b, d, -inf, inf)
+            }));
+            let v = match full {
+                Ok(v) => v,
+                Err(_) => {
+                    writeln!(w, "{}", json!({"ev":"window","fen":proj::project(b),"pos":proj::project_struct(b),"d":d,"panic":true})).ok();
+                    s = Searcher::new();
+                    continue;
+                }
+            };
+            if v.abs() >= 30000 {
+                continue;
+            }
+            let mut wins: Vec<(i32, i32)> = vec![(v - 1, v + 1), (v - 50, v + 50), (v - 1, inf), (-inf, v + 1), (v, v + 1), (v - 1, v),
+                                               (v + 10, v + 11), (v - 11, v - 10), (v - 300, v + 1), (v - 1, v + 300)];
+            for _ in 0..4 {
+                let a = v + rng.gen_range(-400..400);
+                wins.push((a, a + rng.gen_range(1..400)));
+            }
+            let mut probes = vec![];
+            for (a, bb) in wins {
+                let (a, bb) = (a.max(-inf), bb.min(inf));
+                if a >= bb {
+                    continue;
+                }
+                match catch_unwind(AssertUnwindSafe(|| {
+                    s.verif_reset();
+                    s.verif_search_window(b, d, a, bb)
+                })) {
+                    Ok(r) => probes.push(json!([a, bb, clamp(r)])),
+                    Err(_) => {
+                        probes.push(json!([a, bb, 99999999]));
+                        s = Searcher::new();
+                    }
+                }
+            }
+            writeln!(w, "{}", json!({"ev":"window","fen":proj::project(b),"pos":proj::project_struct(b),"d":d,"v":v,"probes":probes})).ok();
         }
     }
     w.flush().ok();
